@@ -1,0 +1,24 @@
+//go:build verif
+
+package htmldoc
+
+import (
+	"strings"
+
+	"golang.org/x/net/html"
+)
+
+// Verification hooks for the bounded-work guards (C02). Add-only.
+
+// VerifTreeDeeperThan parses src with x/net/html the way OpenReader does and exposes
+// treeDeeperThan with the given limit.
+func VerifTreeDeeperThan(src string, limit int) (bool, error) {
+	doc, err := html.Parse(strings.NewReader(src))
+	if err != nil {
+		return false, err
+	}
+	return treeDeeperThan(doc, limit), nil
+}
+
+// VerifMaxTreeDepth exposes the nesting limit of OpenReader.
+func VerifMaxTreeDepth() int { return maxTreeDepth }
